@@ -296,6 +296,13 @@ def dot(ctx, rep, r1, r2, r3, r4, r5):
     an, ip, out = ctx.explore(em, model=DotModel)
     fmts = an.events('PIECE')
     rep.need(r2, len(fmts), 4, "pieces appended by the emitter")
+    tpls = [e.data.get('tpl') or '' for e in fmts]
+    if not any('->' in t for t in tpls) and not any(t.startswith('subgraph') for t in tpls):
+        # neither an edge nor a subgraph statement among what the emitter itself appends: the statements are built
+        # somewhere this rule does not follow (helpers that return the text of a node, a table of edge writers)
+        rep.error(r2, "%s appends no edge and no subgraph statement of its own: the statements are built by helpers "
+                  "this rule does not follow" % fn)
+        return
     # R20.1 (b): holes of the emitter are ids, cluster names, styles or the nested body
     safe_m = ('repr_id', 'dot_cluster_name', 'dot_style')
     def hole(a, depth=0):
@@ -482,6 +489,16 @@ def dot(ctx, rep, r1, r2, r3, r4, r5):
         rets = [n for n in walk_local(cn.node) if isinstance(n, ast.Return)]
         ok = any(isinstance(c, ast.Constant) and isinstance(c.value, str) and c.value.startswith('cluster')
                  for x in rets for c in ast.walk(x))
+        if not ok and rets and all(isinstance(x.value, ast.Attribute) and isinstance(x.value.value, ast.Name)
+                                   and x.value.value.id == 'self' for x in rets):
+            # the name is kept in an attribute: judged by what is stored there
+            attrs = {x.value.attr for x in rets}
+            stores = [n for c_ in cn.cls.mro for g_ in c_.methods.values() for n in walk_local(g_.node)
+                      if isinstance(n, ast.Assign) and any(isinstance(t, ast.Attribute) and t.attr in attrs
+                                                           and isinstance(t.value, ast.Name) and t.value.id == 'self'
+                                                           for t in n.targets)]
+            ok = bool(stores) and all(any(isinstance(c, ast.Constant) and isinstance(c.value, str)
+                                          and c.value.startswith('cluster') for c in ast.walk(n.value)) for n in stores)
         rep.check(ok, r2, "%s starts with `cluster`" % cn.qualname, cn.qualname, "returns %s" % [src(x) for x in rets],
                   "graphviz only treats subgraphs named cluster* as clusters: lhead/ltail stop working")
     # ------------------------------------------------------------------ R20.5 skeleton
@@ -703,6 +720,16 @@ def numbering(ctx, rep, r3, em=None):
                     own = [n for n in calls2 if n.func.attr == hook and dotted(n.func.value) in p.classes]
                     deep = [n for n in calls2 for c in callees_by_name(p, g2, n) if c.qualname in numbering
                             and c.cls is not None and r.sched in c.cls.mro and c is not g2 and n not in own]
+            if not own and deep:
+                base_hook = p.supplier(r.jobbase, hook)
+                idattrs = {t.attr for n in walk_local(base_hook.node) if isinstance(n, ast.Assign) for t in n.targets
+                           if isinstance(t, ast.Attribute)} if base_hook is not None else set()
+                if any(isinstance(n, ast.Assign) and any(isinstance(t, ast.Attribute) and t.attr in idattrs
+                                                         for t in n.targets)
+                       for g_ in {f, fsrc} for n in walk_local(g_.node)):
+                    rep.error(r3, "%s.%s stores its own id itself instead of handing over to %s: this rule cannot decide "
+                                  "this form" % (cls.name, hook, base_hook.qualname))
+                    continue
             rep.check(bool(own) and bool(deep), r3, "%s.%s takes one id for the cluster and numbers its members"
                       % (cls.name, hook), f.qualname,
                       "own id: %s, members: %s" % ([src(n)[:50] for n in own], [src(n)[:50] for n in deep]),
